@@ -230,8 +230,9 @@ FMix == Func("f", <<"a", "b">>, <<"r", "s">>, <<"t">>,
 GOuter == Func("g", <<"a">>, <<"r">>, <<>>, <<Asg(Rr, Bin("+", Call("f", <<Ra, Bin("-", Ra, I(1))>>), I(1)))>>)
 
 FuncComps == << Real("x"), Real("y"), RealA("z", <<3>>), Param("p", RI(2)) >>
-FuncArgs(tier) == {<<Ref("y"), Ref("p")>>, <<Ref("p"), Ref("y")>>, <<Bin("+", Ref("y"), I(1)), Ref("time")>>,
-             <<Idx("z", <<I(2)>>), Idx("z", <<I(3)>>)>>, <<Lit(Q(1, 2)), Ref("y")>>}
+FuncArgs(tier) == IF tier = "quick" THEN {<<Ref("p"), Ref("y")>>, <<Bin("+", Ref("y"), I(1)), Idx("z", <<I(3)>>)>>}
+                  ELSE {<<Ref("y"), Ref("p")>>, <<Ref("p"), Ref("y")>>, <<Bin("+", Ref("y"), I(1)), Ref("time")>>,
+                        <<Idx("z", <<I(2)>>), Idx("z", <<I(3)>>)>>, <<Lit(Q(1, 2)), Ref("y")>>}
 Single(tier) == {FStraight, FIf3, FFor(1, 3), FFor(2, 2), FFor(1, 0)} \cup {FIf(op) : op \in RelOps}
 Multi(tier)  == {FIfDep, FFor2, FMulti, FMix}
 
@@ -292,9 +293,28 @@ IndexItems(tier) ==
     UNION {{Item("index", Prog(IdxComps(n, 2, 3), eqs, <<>>, <<>>), {"vec"}) : eqs \in IdxVecEqs(n)} : n \in NSizes(tier)}
     \cup UNION {{Item("index", Prog(IdxComps(3, s[1], s[2]), eqs, <<>>, <<>>), {"mat"}) : eqs \in IdxMatEqs(s[1], s[2])} : s \in MShapes(tier)}
 
+-----------------------------------------------------------------------------
+(* "opt" (C12): every program with a for-loop or a function call, a few with attributes (metadata must not
+   depend on the options either) and with delay() (delay arguments; uninterpreted here, compared across options) *)
+HasLoopOrCall(P) == P.funcs # <<>> \/ (\E i \in DOMAIN P.eqs : P.eqs[i].k = "for") \/ (\E j \in DOMAIN P.ieqs : P.ieqs[j].k = "for")
+AttrComps == << Comp("x", "Real", "", <<>>, <<Mod("start", Bin("*", I(2), Ref("p"))), Mod("max", Bin("+", Ref("p"), I(3)))>>),
+                Comp("y", "Real", "", <<>>, <<Mod("nominal", I(2)), Mod("fixed", BLit(TRUE))>>),
+                Comp("z", "Real", "", <<3>>, <<EachMod("min", Un("-", Ref("p"))), Mod("start", Arr(<<I(1), I(2), I(3)>>))>>),
+                Comp("w", "Real", "", <<3>>, <<>>), Param("p", RI(2)), IParam("m", 3), Comp("k", "Integer", "", <<>>, <<Mod("max", I(7))>>) >>
+OptItems(tier) ==
+    {[it EXCEPT !.fam = "opt"] : it \in {x \in FuncItems(tier) \cup EqItems(tier) : HasLoopOrCall(x.prog)}}
+    \cup {Item("opt", Prog(AttrComps, <<ForEq("i", I(1), Ref("m"), <<Eq(Idx("z", <<Ri>>), Bin("*", Ri, Idx("w", <<Ri>>)))>>),
+                                        Eq(Ref("x"), Call("f", <<Ref("y"), Ref("p")>>))>>,
+                             <<Eq(Ref("y"), I(1))>>, <<fd>>), {"with-attributes"}) : fd \in {FStraight, FFor(1, 3), FMix}}
+    \cup {Item("opt", Prog(FuncComps, <<Eq(Ref("x"), Call("delay", <<Ref("y"), Ref("p")>>))>>, <<>>, <<>>), {"delay"}),
+          Item("opt", Prog(FuncComps, <<Eq(Ref("x"), Call("delay", <<Bin("*", I(2), Ref("y")), Bin("*", I(3), Ref("p"))>>)),
+                                       ForEq("i", I(1), I(3), <<Eq(Idx("z", <<Ri>>), Bin("*", Ri, Ref("x")))>>)>>, <<>>, <<>>), {"delay"}),
+          Item("opt", Prog(FuncComps, <<Eq(Ref("x"), Call("delay", <<Call("f", <<Ref("y"), Ref("p")>>), Ref("p")>>))>>, <<>>, <<FFor(1, 3)>>), {"delay"})}
+
 ItemSet == CASE Family = "expr"  -> ExprItems(Tier)
              [] Family = "elem"  -> ElemItems(Tier)
              [] Family = "eqs"   -> EqItems(Tier)
              [] Family = "func"  -> FuncItems(Tier)
              [] Family = "index" -> IndexItems(Tier)
+             [] Family = "opt"   -> OptItems(Tier)
 =============================================================================
